@@ -10,6 +10,14 @@ import (
 func init() {
 	f := "internal/wat/watutil/wat2c/wat2c_func.go"
 	register(&Property{ID: "C03", Run: runC03, Mutants: []Mutant{
+		{Name: "memory.grow tests size+delta in int32 arithmetic", File: f, Old: "fmt.Fprintf(w, \"%sif((uint32_t)R%d.i32 <= (uint32_t)(%s_memory_init_max_pages-%s_memory_size)) {\\n\",\n\t\t\tindent, sp0, p.opt.Prefix, p.opt.Prefix,", New: "fmt.Fprintf(w, \"%sif(%s_memory_size+R%d.i32 <= %s_memory_init_max_pages) {\\n\",\n\t\t\tindent, p.opt.Prefix, sp0, p.opt.Prefix,", Expect: "c-memory-grow-no-wrap"},
+		{Name: "memory.grow compares the delta signed", File: f, Old: "if((uint32_t)R%d.i32 <= (uint32_t)(%s_memory_init_max_pages-%s_memory_size)) {", New: "if(R%d.i32 <= (%s_memory_init_max_pages-%s_memory_size)) {", Expect: "c-memory-grow-no-wrap"},
+		{Name: "implicit return pops the results first to last", File: f, Old: "\t\t\tfor i := len(fn.Type.Results) - 1; i >= 0; i-- {\n\t\t\t\txType := fn.Type.Results[i]\n\t\t\t\tspi := stk.Pop(xType)", New: "\t\t\tfor i, xType := range fn.Type.Results {\n\t\t\t\tspi := stk.Pop(xType)", Expect: "list-stack-order :: wat2cWorker.buildFunc_body"},
+		{Name: "call pops its arguments first to last", File: f, Old: "\t\tfor k := len(argList) - 1; k >= 0; k-- {\n\t\t\tx := fnCallType.Params[k]", New: "\t\tfor k := 0; k < len(argList); k++ {\n\t\t\tx := fnCallType.Params[k]", Expect: "list-stack-order :: wat2cWorker.buildFunc_ins: Pop per element of fnCallType.Params"},
+		{Name: "call pushes its results last to first", File: f, Old: "\t\t\tfor k, retType := range fnCallType.Results {\n\t\t\t\treti := stk.Push(retType)", New: "\t\t\tfor k := len(fnCallType.Results) - 1; k >= 0; k-- {\n\t\t\t\tretType := fnCallType.Results[k]\n\t\t\t\treti := stk.Push(retType)", Expect: "list-stack-order :: wat2cWorker.buildFunc_ins: Push per element of fnCallType.Results"},
+		{Name: "C prelude: i64.ctz(0) answers 32", File: "internal/wat/watutil/wat2c/_math_x.c", Old: "#define I64_CTZ(x) ((x) ? __builtin_ctzll(x) : 64)", New: "#define I64_CTZ(x) ((x) ? __builtin_ctzll(x) : 32)", Expect: "c-prelude-bit-macros :: I64_CTZ"},
+		{Name: "C prelude: i64 rotate masks the count with 31", File: "internal/wat/watutil/wat2c/_math_x.c", Old: "#define I64_ROTL(x, y) ROTL(x, y, 63)", New: "#define I64_ROTL(x, y) ROTL(x, y, 31)", Expect: "c-prelude-bit-macros :: I64_ROTL"},
+		{Name: "memory.grow stores the old size before it adds the delta", File: "internal/wat/watutil/wat2c/wat2c_func.go", Old: "\t\t\tfmt.Fprintf(w, \"%sint32_t temp = %s_memory_size;\\n\",\n\t\t\t\tindent+indent, p.opt.Prefix,\n\t\t\t)", New: "\t\t\tfmt.Fprintf(w, \"%sR%d.i32 = %s_memory_size;\\n\",\n\t\t\t\tindent+indent, ret0, p.opt.Prefix,\n\t\t\t)", Old2: "\t\t\tfmt.Fprintf(w, \"%sR%d.i32 = temp;\\n\",\n\t\t\t\tindent+indent, ret0,\n\t\t\t)\n", New2: "", Expect: "operand-read-after-result-write :: memory.grow"},
 		{Name: "br copies results only when they are above the current block's base", File: "internal/wat/watutil/wat2c/wat2c_func.go", Old: "\t\t\tif firstResultOffset > destScopeStackBase {", New: "\t\t\tif firstResultOffset > currentScopeStackBase {", Expect: "br-result-copy-guard"},
 		{Name: "data literal: 'F' after a hex escape not split off", File: "internal/wat/watutil/wat2c/wat2c_code.go", Old: "if prevIsHexEscape && x <= 'F' {", New: "if prevIsHexEscape && x < 'F' {", Expect: "c-data-literal"},
 		{Name: "data literal: double quote written raw", File: "internal/wat/watutil/wat2c/wat2c_code.go", Old: "\t\t\t\tsb.WriteString(\"\\\\\\\"\")", New: "\t\t\t\tsb.WriteString(\"\\\"\")", Expect: "c-data-literal"},
@@ -95,10 +103,14 @@ func runC03(c *Ctx) {
 	}
 	c03DataLiteral(c, p, pk)
 	c03BrResultCopy(c, p, pk)
+	c03ListOrder(c, p, pk)
 	by := stackEffectRules(c, p, "wat2c", pk, ins)
 	if by == nil {
 		return
 	}
+	c03SlotAliasing(c, p, by, ins)
+	c03MemoryGrow(c, p, by)
+	c03Prelude(c)
 	var names []string
 	for k := range ins {
 		names = append(names, k)
